@@ -135,6 +135,15 @@ SIGMA = [
     ('semi_mid', 'a;b', 'semicolon_inside'),
     # --- quoting decision points
     ('lead_blank', ' lead', 'blank'),
+    # a blank or tab in front of something that may not start (or be) an unquoted value
+    ('blank_underscore', ' _abc', 'blank'),
+    ('tab_hash', '\t#5of7', 'tab'),
+    ('blank_loop', ' loop_', 'blank'),
+    ('blank_data', ' data_run42', 'blank'),
+    ('blank_semi', ' ;abc', 'blank'),
+    ('blank_dollar', ' $a', 'blank'),
+    ('blank_bracket', ' [a]', 'blank'),
+    ('trail_blank_loop', 'loop_ ', 'blank'),
     ('trail_blank', 'trail ', 'blank'),
     ('blank_only', ' ', 'blank'),
     ('lead_apos', "'lead", 'quote'),
@@ -213,6 +222,7 @@ LABELS = [lab for lab, _, _ in SIGMA]
 SIGMA8 = ['plain', 'blank', 'apos', 'both', 'newline', 'semi_mid', 'empty', 'lead_semi']
 SIGMA12 = [*SIGMA8, 'dq_blank', 'lead_underscore', 'tab', 'loop_']
 SIGMA16 = [*SIGMA12, 'uml', 'lead_hash', 'nl_semi', 'data_x']
+SIGMA_LEAD = ['blank_underscore', 'tab_hash', 'blank_loop', 'blank_data', 'blank_semi', 'blank_dollar', 'blank_bracket', 'trail_blank_loop']
 SIGMA34 = [
     *SIGMA16, 'lead_blank', 'trail_apos', 'lead_dq', 'apos_blank', 'both_blank', 'blank_hash', 'question', 'long',
     'trail_nl', 'nl_blank_semi', 'lead_nl_semi', 'lead_dollar', 'lead_lbracket', 'semi_only', 'tab_only', 'stop_',
